@@ -338,7 +338,8 @@ class t2grid(object):
         """Deletes a connection from the grid"""
         if connectionname in self.connection:
             con = self.connection[connectionname]
-            for block in con.block: block.connection_name.remove(connectionname)
+            # (discard: a connection may join a block to itself)
+            for block in con.block: block.connection_name.discard(connectionname)
             del self.connection[connectionname]
             self.connectionlist.remove(con)
 
